@@ -189,7 +189,9 @@ def list_inputs(src):
     return own, tests
 
 
-OPTION_SETS = [["-M", "-MT", "foo bar$x.o"], ["-MD", "-MP", "-MT", "a#b", "-S"], ["-MMD", "-c"], ["-M", "-MP"], ["-M", "-MQ", "x y$.o"], ["-MD", "-MT", "t1", "-MT", "t2", "-E"],
+OPTION_SETS = [["-###"], ["-###", "-c"], [], ["-###", "-static"], ["-###", "-shared", "-fPIC"], ["-###", "-L.", "-lm", "-Wl,--as-needed,-z,now", "-Xlinker", "--no-undefined", "-s"],
+               ["-###", "-S", "-xc", "-idirafter", "test", "-I.", "-include", "stdbool.h"],
+               ["-M", "-MT", "foo bar$x.o"], ["-MD", "-MP", "-MT", "a#b", "-S"], ["-MMD", "-c"], ["-M", "-MP"], ["-M", "-MQ", "x y$.o"], ["-MD", "-MT", "t1", "-MT", "t2", "-E"],
                ["-E", "-xc"], ["-S", "-x", "c"], ["-E", "-DX=a=b", "-DY=", "-UX", "-D", "Z(a,b)=a##b"], ["-S", "-idirafter", "test", "-fno-common"],
                ["-E", "-include", "stdarg.h", "-include", "stddef.h"], ["-S", "-O2", "-g", "-Wall", "-std=c11", "-fno-builtin"], ["-c", "-fcommon", "-DNDEBUG"],
                ["-S"], ["-S"], ["-S", "-fPIC"], ["-S", "-fno-common"], ["-S", "-fcommon"], ["-E"], ["-E"], ["-c"], ["-c", "-fPIC"],
@@ -409,7 +411,7 @@ def worker(args):
             out["diagnosed"] += 1
         sub = "same_replica_diff_env" if case["a"] == case["b"] else ("diff_replica_same_env" if case["e1"] == case["e2"] else "diff_both")
         out["sub"][sub] += 1
-        o = " ".join(case["opts"][:1])
+        o = " ".join(case["opts"][:1]) or "(link)"
         out["by_opt"][o] = out["by_opt"].get(o, 0) + 1
         # which perturbations took effect (read back from the shim's own counters)
         eff = set()
